@@ -29,6 +29,8 @@ VARIANTS = {
     "asan-assert": ("g++", ["-O1", "-g1"] + SAN, ["-fsanitize=address,undefined"]),
     "steps": ("g++", ["-O1", "-g1", "-DNDEBUG", "-fsanitize-coverage=trace-pc"], []),
     "plain": ("g++", ["-O1", "-g", "-DNDEBUG"], []),
+    # development aid (tools/coverage.py): which library lines the monitored workloads reach
+    "cov": ("g++", ["-O0", "-g1", "-DNDEBUG", "--coverage", "-DVERIF_COV"], ["--coverage"]),
     "fuzz": ("clang++-14", ["-O1", "-g1", "-DNDEBUG", "-fsanitize=fuzzer-no-link,address,undefined",
                             "-fno-sanitize=object-size", "-fno-sanitize-recover=all",
                             "-fno-omit-frame-pointer"],
@@ -95,6 +97,8 @@ def build_lib(variant):
             return out
         t0 = time.time()
         tmp = out + ".tmp.%d" % os.getpid()
+        if variant == "cov":
+            tmp = out + ".obj"      # gcov data files are written next to the objects: the path must be stable
         shutil.rmtree(tmp, ignore_errors=True)
         os.makedirs(os.path.join(tmp, "include"))
         src = os.path.join(REPO, "src")
@@ -116,10 +120,16 @@ def build_lib(variant):
         with ThreadPoolExecutor(max_workers=16) as ex:
             objs = list(ex.map(cc, order))
         _run(["ar", "rcs", os.path.join(tmp, "libutap.a")] + objs)
-        for o in objs:
-            os.unlink(o)
-        shutil.rmtree(out, ignore_errors=True)
-        os.rename(tmp, out)
+        if variant == "cov":
+            shutil.rmtree(out, ignore_errors=True)
+            os.makedirs(os.path.join(out, "include"))
+            shutil.copy(os.path.join(tmp, "libutap.a"), out)
+            shutil.copy(os.path.join(tmp, "include", "parser.hpp"), os.path.join(out, "include"))
+        else:
+            for o in objs:
+                os.unlink(o)
+            shutil.rmtree(out, ignore_errors=True)
+            os.rename(tmp, out)
         sys.stderr.write("[build] %s libutap.a built in %.1fs (%s)\n" % (variant, time.time() - t0, sh))
         _prune(3)
         return out
